@@ -86,15 +86,15 @@ var dialHook atomic.Value // func()
 // faults that a master cannot provoke: a write that fails).
 var dialWrap atomic.Value // func(net.Conn) net.Conn
 
-// failWriteConn fails its n-th Write (1-based) with ECONNRESET without sending anything; the writes of a
-// session are: the handshake response, the checksum statement, the dump command.
+// failWriteConn fails the Write that carries the dump command (a command packet - sequence number 0 - whose
+// command byte is COM_BINLOG_DUMP) with ECONNRESET without sending anything; whatever else the session writes
+// before it (the handshake response, the checksum statement, any further session settings) goes through.
 type failWriteConn struct {
 	net.Conn
-	failAt, n int32
 }
 
 func (c *failWriteConn) Write(b []byte) (int, error) {
-	if atomic.AddInt32(&c.n, 1) == c.failAt {
+	if len(b) >= 5 && b[3] == 0 && b[4] == 0x12 {
 		return 0, &net.OpError{Op: "write", Net: "tcp", Err: syscall.ECONNRESET}
 	}
 	return c.Conn.Write(b)
@@ -102,7 +102,7 @@ func (c *failWriteConn) Write(b []byte) (int, error) {
 
 // failDumpWrite arms dialWrap so that the next connection cannot send its dump command; it returns the disarm.
 func failDumpWrite() func() {
-	dialWrap.Store(func(c net.Conn) net.Conn { return &failWriteConn{Conn: c, failAt: 3} })
+	dialWrap.Store(func(c net.Conn) net.Conn { return &failWriteConn{Conn: c} })
 	return func() { dialWrap.Store(func(c net.Conn) net.Conn { return c }) }
 }
 
